@@ -110,7 +110,7 @@ func (b *BlockList) refreshRemote() {
 
 	b.fetchBlocklist()
 
-	if err := b.readBlocklists(); err != nil {
+	if err := b.readLists(true); err != nil {
 		zlog.Error("Read blocklists after refresh failed", "dir", b.cfg.BlockListDir, "error", err.Error())
 	}
 }
@@ -238,6 +238,16 @@ func (b *BlockList) fetchBlocklist() {
 }
 
 func (b *BlockList) readBlocklists() error {
+	return b.readLists(false)
+}
+
+// readLists parses every list file in the blocklist directory. The
+// background refresh of a running instance passes skipLocal: the
+// API-owned list "local" is then left unread, because memory is
+// already ahead of it - re-reading it would bring back an entry whose
+// removal has not reached the file yet - and the temp file of a
+// persist in flight is left in place for the persist that owns it.
+func (b *BlockList) readLists(skipLocal bool) error {
 	zlog.Info("Loading blocked domains...", "path", b.cfg.BlockListDir)
 
 	if _, err := os.Stat(b.cfg.BlockListDir); os.IsNotExist(err) {
@@ -258,6 +268,9 @@ func (b *BlockList) readBlocklists() error {
 			return nil
 		}
 		if !f.IsDir() {
+			if skipLocal && (f.Name() == "local" || strings.HasPrefix(f.Name(), "local.tmp.")) {
+				return nil
+			}
 			// A leftover temp file of an interrupted persist is not a
 			// list: it may hold half a snapshot, and entries removed
 			// since would come back on every start. Drop it unread.
